@@ -260,26 +260,75 @@ pub(crate) mod verif_proxy {
     for_url_ip_shape!(c11_q_forurl_ip6_e2, 2, true, false);
     for_url_ip_shape!(c11_t_forurl_ip6_e5, 5, true, true);
 
-    /// The builder stores every entry (case-insensitively equal to what was given, in order) and the
-    /// proxies in the right slots; proxies are enabled by default.
-    fn builder_case<const E1: usize, const E2: usize>() {
+    /// The builder, judged only through for_url (no look at how entries are stored, so that e.g. a
+    /// de-duplicating builder is not flagged): after adding two mixed-case entries, a host equal to
+    /// either of them (lower case, as Url hosts always are) bypasses the proxy; an unrelated host
+    /// gets the proxy of its scheme and none for the other scheme; proxies are enabled by default.
+    fn builder_case<const E1: usize, const E2: usize>(which_http: bool, probe: u8) {
         let e1 = any_entry::<E1>();
         let e2 = any_entry::<E2>();
         let p1 = make_url(&UrlSpec::simple(false, b"p"));
-        let which: bool = kani::any();
         let b = ProxySettings::builder();
-        let b = if which { b.http_proxy(p1) } else { b.https_proxy(Some(p1)) };
+        let b = if which_http { b.http_proxy(p1) } else { b.https_proxy(Some(p1)) };
         let s = b
             .add_no_proxy_host(unsafe { std::str::from_utf8_unchecked(&e1) })
             .add_no_proxy_host(unsafe { String::from_utf8_unchecked(e2.to_vec()) })
             .build();
-        assert!(s.no_proxy_hosts.len() == 2, "C11: builder lost or invented a no-proxy entry");
-        assert!(eq_ci(s.no_proxy_hosts[0].as_bytes(), &e1), "C11: builder altered a no-proxy entry");
-        assert!(eq_ci(s.no_proxy_hosts[1].as_bytes(), &e2), "C11: builder altered a no-proxy entry");
-        assert!(!s.disable_proxies, "C11: builder disables proxies");
-        assert!(s.http_proxy.is_some() == which && s.https_proxy.is_some() == !which, "C11: builder stored the proxy under the wrong scheme");
-        kani::cover!(which, "must: http slot");
-        kani::cover!(!which, "must: https slot");
+        let mut h1 = [0u8; E1];
+        let mut i = 0;
+        while i < E1 {
+            h1[i] = ascii_lower(e1[i]);
+            i += 1;
+        }
+        let mut h2 = [0u8; E2];
+        let mut j = 0;
+        while j < E2 {
+            h2[j] = ascii_lower(e2[j]);
+            j += 1;
+        }
+        let https = !which_http;
+        // one for_url query per harness (the builder's struct moves plus several queries exceed
+        // 24 GB): probe 0 = host equal to the first entry, 1 = to the second, 2 = unrelated host,
+        // 3 = unrelated host with the other scheme
+        match probe {
+            0 => {
+                let u1 = make_url(&UrlSpec::simple(https, &h1));
+                assert!(s.for_url(&u1).is_none(), "C11: host equal to a no-proxy entry given to the builder is still proxied");
+                std::mem::forget(u1);
+            }
+            1 => {
+                let u2 = make_url(&UrlSpec::simple(https, &h2));
+                assert!(s.for_url(&u2).is_none(), "C11: host equal to a later no-proxy entry given to the builder is still proxied");
+                std::mem::forget(u2);
+            }
+            4 | 5 => {
+                // cheap variant: judge the stored list with the reference relation instead of
+                // calling for_url (for_url on such lists is decided by the c11_*_forurl_* family,
+                // the letter-case composition by c11_*_builder_then_forurl_*): some stored entry
+                // must cover a host equal to the entry that was added
+                let h: &[u8] = if probe == 4 { &h1 } else { &h2 };
+                let mut covered = false;
+                let mut k = 0;
+                while k < s.no_proxy_hosts.len() && k < 3 {
+                    if relation(h, s.no_proxy_hosts[k].as_bytes()) != Rel::Unrelated {
+                        covered = true;
+                    }
+                    k += 1;
+                }
+                assert!(covered || h.is_empty(), "C11: a no-proxy entry given to the builder is not honoured (lost or altered)");
+            }
+            2 => {
+                let other = make_url(&UrlSpec::simple(https, b"zz"));
+                assert!(s.for_url(&other).is_some(), "C11: unrelated host bypasses the proxy / builder stored the proxy under the wrong scheme or disabled proxies");
+                std::mem::forget(other);
+            }
+            _ => {
+                let other_scheme = make_url(&UrlSpec::simple(!https, b"zz"));
+                assert!(s.for_url(&other_scheme).is_none(), "C11: proxy used for a scheme it was not configured for");
+                std::mem::forget(other_scheme);
+            }
+        }
+        kani::cover!(true, "must: reached");
         std::mem::forget(s);
     }
 
@@ -320,18 +369,25 @@ pub(crate) mod verif_proxy {
         builder_then_for_url::<3>();
     }
 
-    #[kani::proof]
-    #[kani::unwind(12)]
-    #[kani::stub(str::to_lowercase, to_lowercase_ascii)]
-    fn c11_q_builder_e2_e0() {
-        builder_case::<2, 0>();
+    macro_rules! builder_shape {
+        ($name:ident, $e1:expr, $e2:expr, $http:expr, $probe:expr) => {
+            #[kani::proof]
+            #[kani::unwind(12)]
+            #[kani::stub(str::to_lowercase, to_lowercase_ascii)]
+            fn $name() {
+                builder_case::<$e1, $e2>($http, $probe);
+            }
+        };
     }
-    #[kani::proof]
-    #[kani::unwind(12)]
-    #[kani::stub(str::to_lowercase, to_lowercase_ascii)]
-    fn c11_t_builder_e3_e3() {
-        builder_case::<3, 3>();
-    }
+    builder_shape!(c11_q_builder_e1_e2_second_stored, 1, 2, true, 5);
+    builder_shape!(c11_q_builder_e2_e3_first_stored, 2, 3, false, 4);
+    builder_shape!(c11_q_builder_e2_e3_second_stored, 2, 3, true, 5);
+    builder_shape!(c11_t_builder_e1_e2_second, 1, 2, true, 1);
+    builder_shape!(c11_t_builder_e2_e1_first_https, 2, 1, false, 0);
+    builder_shape!(c11_t_builder_e1_e1_unrelated, 1, 1, true, 2);
+    builder_shape!(c11_t_builder_e1_e0_other_scheme, 1, 0, false, 3);
+    builder_shape!(c11_t_builder_e3_e3_second, 3, 3, true, 1);
+    builder_shape!(c11_t_builder_e2_e3_first, 2, 3, false, 0);
 }
 
 /// Direct construction for harnesses in other modules (the builder moves whole Url values around,
